@@ -1,24 +1,61 @@
 (* C03  Roaring-bitmap index returns exactly the documents whose DNF is satisfied.  Statements only.
-   Scanner fold (Model/Rr.v: the OR-first / AND-rest merge with the inited/ended flags and the early
-   break): for EVERY order in which Go's map iteration presents the fields, a conjunction id is in
-   the result iff it is in every field's result.  The executable model compared with the code on
-   every run is Model/Roaring.v. *)
-From Coq Require Import List NArith Bool Permutation.
-From BE Require Import Model.Rr.
+   All statements are about Model/Roaring.v, the executable model compared with the code on every run
+   (builder with its wildcard rule, default/pattern containers, scanner with inited/ended flags and
+   the early break).  `conj_sat_field q cj (f, container)` (Proofs/RoaringProof.v) is the satisfaction
+   rule of the property for one field: no exclude expression of cj on f is hit by the assigned values
+   and, if cj has include expressions on f, one of them is. *)
+From Coq Require Import List NArith ZArith Bool Permutation.
+From BE Require Import Model.GoTypes Model.GoVal Model.Parsers Model.Index Model.Roaring Proofs.RoaringProof.
+From BE Require Gen.IdsGen.
 Import ListNotations.
 
-Theorem C03_fold_is_intersection : forall pl pls x,
-  mem x (res (retrieve fresh (pl :: pls))) = all_in x (pl :: pls).
-Proof. exact retrieve_fresh. Qed.
+(* END TO END, default containers: for ANY accepted document set with distinct ids over any non-empty
+   set of configured fields and ANY assignment on which retrieval succeeds, the id of the k-th
+   conjunction of document d is in a fresh scanner's raw result exactly when the conjunction is
+   satisfied on every configured field (fields the conjunction does not mention are unconstrained) *)
+Theorem C03_roaring_index_exact : forall b0 ds b os q s d k cj x,
+  all_new (rb_conts b0) -> rb_conts b0 <> [] ->
+  radd_documents b0 ds = (b, os) -> Forall (eq AddOk) os ->
+  NoDup (map d_id ds) -> In d ds -> nth_error (d_conjs d) k = Some cj ->
+  IdsGen.NewConjunctionID (Z.of_nat k) (d_id d) = Some x ->
+  sc_retrieve (rb_conts b) q fresh_scanner = POk s ->
+  bm_mem x (sc_res s) = forallb (conj_sat_field q cj) (rb_conts b).
+Proof. exact roaring_index_correct. Qed.
 
-Theorem C03_any_field_order : forall x l l', Permutation l l' -> all_in x l = all_in x l'.
-Proof. exact all_in_perm. Qed.
+(* ... and nothing else is ever returned *)
+Theorem C03_roaring_index_sound : forall b0 ds b os q s x,
+  all_new (rb_conts b0) -> radd_documents b0 ds = (b, os) -> Forall (eq AddOk) os ->
+  sc_retrieve (rb_conts b) q fresh_scanner = POk s -> bm_mem x (sc_res s) = true ->
+  exists d cj i, In d ds /\ In (i, cj) (indexed_from 0%Z (d_conjs d)) /\ IdsGen.NewConjunctionID i (d_id d) = Some x.
+Proof. exact roaring_index_sound. Qed.
 
-(* with no configured field the fold returns the empty set whereas the intersection over no
-   fields is everything: the premise `at least one field` is necessary (known finding F14) *)
-Theorem C03_refuted_nofields : forall x, mem x (res (retrieve fresh [])) = false /\ all_in x [] = true.
-Proof. intros x. split; reflexivity. Qed.
+(* the scanner's OR-first / AND-rest fold is the intersection of the field results ... *)
+Theorem C03_fold_is_intersection : forall conts q s,
+  conts <> [] -> sc_retrieve conts q fresh_scanner = POk s ->
+  forall x, bm_mem x (sc_res s) = all_in q x conts.
+Proof. exact sc_retrieve_fresh. Qed.
 
+(* ... for EVERY order in which Go's map iteration presents the fields: identical results *)
+Theorem C03_any_field_order : forall conts conts' q s s', Permutation conts conts' ->
+  sc_retrieve conts q fresh_scanner = POk s -> sc_retrieve conts' q fresh_scanner = POk s' ->
+  sc_res s = sc_res s'.
+Proof. exact sc_retrieve_perm_eq. Qed.
+
+(* one field of the default container: wildcard or some include, and no exclude (exclusion dominates) *)
+Theorem C03_default_container_rule : forall p wc inc exc v b,
+  rc_retrieve (RCDefault p wc inc exc) v = POk b ->
+  exists ids, rc_query_ids p v = POk ids /\
+    forall x, bm_mem x b = (bm_mem x wc || existsb (look_mem pid_eqb inc x) ids)
+                           && negb (existsb (look_mem pid_eqb exc x) ids).
+Proof. exact rc_retrieve_default. Qed.
+
+(* with no configured field the fold returns nothing whereas the intersection over no fields is
+   everything: `at least one field` is a necessary premise (known finding F14) *)
+Theorem C03_refuted_nofields : forall q, sc_retrieve [] q fresh_scanner = POk fresh_scanner.
+Proof. exact sc_retrieve_nofields. Qed.
+
+Print Assumptions C03_roaring_index_exact.
+Print Assumptions C03_roaring_index_sound.
 Print Assumptions C03_fold_is_intersection.
 Print Assumptions C03_any_field_order.
-Print Assumptions C03_refuted_nofields.
+Print Assumptions C03_default_container_rule.
